@@ -450,6 +450,38 @@ func c05Forward(c *Ctx, p *Prog, fn *ssa.Function) {
 				bareRecv = true
 				recvBlocks[x.Block()] = true
 			}
+		case *ssa.Call:
+			// the hand-over in a helper (`if !b.forwardEvent(ch, ev, quit) { return }`): the helper
+			// answers true only after it has sent on the caller's channel
+			h := x.Call.StaticCallee()
+			if h == nil || h.Pkg != fn.Pkg || len(h.Blocks) == 0 || len(fn.Params) < 2 {
+				return
+			}
+			chIdx := -1
+			for i, a := range x.Call.Args {
+				if a == ssa.Value(fn.Params[1]) || derivesFrom(a, fn.Params[1], 0) {
+					chIdx = i
+				}
+			}
+			if chIdx < 0 || chIdx >= len(h.Params) || !trueOnlyAfterSendOn(h, h.Params[chIdx]) {
+				return
+			}
+			for _, r := range referrers(x) {
+				cond, neg := ssa.Value(x), false
+				if u, isU := r.(*ssa.UnOp); isU && u.Op == token.NOT {
+					cond, neg = u, true
+					for _, r2 := range referrers(u) {
+						if iff, isIf := r2.(*ssa.If); isIf && iff.Cond == cond {
+							sendEdge[edge{iff.Block(), iff.Block().Succs[1]}] = true
+						}
+					}
+					continue
+				}
+				_ = neg
+				if iff, isIf := r.(*ssa.If); isIf && iff.Cond == cond {
+					sendEdge[edge{iff.Block(), iff.Block().Succs[0]}] = true
+				}
+			}
 		}
 	})
 	if len(recvs) == 0 && !bareRecv {
@@ -880,4 +912,55 @@ func countsFromZeroByOne(v ssa.Value) bool {
 		}
 	}
 	return zero && step
+}
+
+// trueOnlyAfterSendOn: every return of the boolean helper h that can answer true lies behind the
+// send case of a select that sends on ch (no way from the entry to such a return avoids that edge).
+func trueOnlyAfterSendOn(h *ssa.Function, ch *ssa.Parameter) bool {
+	res := h.Signature.Results()
+	if res.Len() != 1 {
+		return false
+	}
+	if bt, ok := res.At(0).Type().Underlying().(*types.Basic); !ok || bt.Kind() != types.Bool {
+		return false
+	}
+	type edge struct{ from, to *ssa.BasicBlock }
+	cut := map[edge]bool{}
+	eachInstr(h, func(in ssa.Instruction) {
+		if sel, ok := in.(*ssa.Select); ok {
+			for i, st := range sel.States {
+				if st.Dir == types.SendOnly && (st.Chan == ssa.Value(ch) || derivesFrom(st.Chan, ch, 0)) {
+					if from := selectCaseTest(sel, i); from != nil {
+						cut[edge{from, from.Succs[0]}] = true
+					}
+				}
+			}
+		}
+	})
+	if len(cut) == 0 {
+		return false
+	}
+	seen := map[*ssa.BasicBlock]bool{}
+	stack := []*ssa.BasicBlock{h.Blocks[0]}
+	for len(stack) > 0 {
+		b := stack[len(stack)-1]
+		stack = stack[:len(stack)-1]
+		if seen[b] {
+			continue
+		}
+		seen[b] = true
+		if len(b.Instrs) > 0 {
+			if r, ok := b.Instrs[len(b.Instrs)-1].(*ssa.Return); ok {
+				if v, isC := constBool(derefCell(resultOf(r, 0))); !isC || v {
+					return false // true (or something undetermined) without the send
+				}
+			}
+		}
+		for _, sc := range b.Succs {
+			if !cut[edge{b, sc}] {
+				stack = append(stack, sc)
+			}
+		}
+	}
+	return true
 }
